@@ -24,14 +24,14 @@ MACROS = ["first_sys_same", "first_user_same", "first_sys_other", "first_user_ot
           "solve_gstrs_same", "destroy_same", "query_new_same", "query_refact_same", "qspace_same", "singular_same", "memfail_same",
           "badarg_same", "gssv_same"]
 PROBES = ["first_x", "first_f", "first_v", "first_x_user", "first_solve_x", "first_solve_f", "first_refact_solve", "first_x_mt",
-          "query_x", "query_f"]
+          "query_x", "query_f", "first_x_tiny"]
 
 
 def other_prec(rng, p):
     return rng.choice([q for q in "sdcz" if q != p])
 
 
-def mk_factor(rng, kind, slot, pat, prec, ienv, api, lwork=0, usepr=0, nprocs=1, style=None, base=None):
+def mk_factor(rng, kind, slot, pat, prec, ienv, api, lwork=0, usepr=0, nprocs=1, style=None, base=None, tiny=False):
     n = pat["n"]
     style = style or rng.choice(["mixed", "diagdom"])
     vals = pl.gen_vals(rng, pat, prec, "perturb", base=base, noise=1e-3) if base is not None else pl.gen_vals(rng, pat, prec, style)
@@ -39,14 +39,22 @@ def mk_factor(rng, kind, slot, pat, prec, ienv, api, lwork=0, usepr=0, nprocs=1,
     o = dict(op=kind, slot=slot, api=api, nprocs=nprocs, u=rng.choice([1.0, 0.1]), fact=0, lwork=lwork, relax=ienv[1], panel=ienv[0],
              trans=rng.choice([0, 1]) if api != 2 else 0, nrhs=nrhs if api != 2 else 1, usepr=usepr, vals=vals, rhs=None, style=style)
     o["rhs"] = pl.gen_rhs(rng, prec, n, o["nrhs"])
+    if tiny:
+        # right-hand sides (hence solutions) whose row scales |A||x|+|b| straddle the underflow guard SAFE2 = (n+1)*safmin/eps of
+        # ?gsrfs: the guard depends on THIS call's dimension, so BERR/FERR/X of this call expose any value of it kept from an
+        # earlier call on a matrix of another size
+        nc = pl.NCOMP[prec]
+        safe2 = (n + 1) * (2.0 ** -126 / 2.0 ** -24 if prec in "sc" else 2.0 ** -1022 / 2.0 ** -53)
+        sc = [safe2 * 2.0 ** rng.uniform(-2.0, 4.0) for _ in range(n)]
+        o["rhs"] = [pl.rnd_to(prec, v * sc[(k // nc) % n]) for k, v in enumerate(o["rhs"])]
     if kind == "first": o["permc"] = rng.choice([0, 1, 2, 3])
     return o
 
 
-def gen_macro(rng, name, slot, pprec, ienv, slots):
+def gen_macro(rng, name, slot, pprec, ienv, slots, nrange=(2, 14)):
     """ops of one prefix macro on its own slot (own pattern, other size)"""
     prec = other_prec(rng, pprec) if name.endswith("_other") else pprec
-    n = rng.randint(2, 14)
+    n = rng.randint(*nrange)
     pat = pl.gen_pattern(rng, n); annz = len(pat["rowind"])
     slots.append({"sid": slot, "prec": prec, "pat": pat})
     lw = pl.lwork_enough(n, annz, prec, ienv, 4, ienv[0])
@@ -89,7 +97,7 @@ def gen_macro(rng, name, slot, pprec, ienv, slots):
 
 
 def gen_probe(rng, name, prec, ienv, slots):
-    n = rng.randint(3, 12)
+    n = rng.randint(3, 12) if name != "first_x_tiny" else rng.randint(3, 6)
     pat = pl.gen_pattern(rng, n); annz = len(pat["rowind"])
     slots.insert(0, {"sid": 0, "prec": prec, "pat": pat})
     lw = pl.lwork_enough(n, annz, prec, ienv, 4, ienv[0])
@@ -97,6 +105,7 @@ def gen_probe(rng, name, prec, ienv, slots):
         # a workspace query (lwork = -1) for a matrix never seen before: its answer depends on that matrix and the options only
         return [dict(op="query", slot=0, api=0 if name == "query_x" else 1, refact=0, nprocs=rng.choice([1, 2, 4]), relax=ienv[1], panel=ienv[0], restore=False)]
     if name == "first_x": return [mk_factor(rng, "first", 0, pat, prec, ienv, 0)]
+    if name == "first_x_tiny": return [mk_factor(rng, "first", 0, pat, prec, ienv, 0, style="diagdom", tiny=True)]
     if name == "first_f": return [mk_factor(rng, "first", 0, pat, prec, ienv, 1)]
     if name == "first_v": return [mk_factor(rng, "first", 0, pat, prec, ienv, 2)]
     if name == "first_x_user": return [mk_factor(rng, "first", 0, pat, prec, ienv, rng.choice([0, 1]), lwork=lw)]
@@ -109,13 +118,13 @@ def gen_probe(rng, name, prec, ienv, slots):
     return [f, rf, sv]
 
 
-def gen_case(rng, macros, probe):
-    prec = rng.choice("sdcz")
+def gen_case(rng, macros, probe, prec=None):
+    prec = prec or rng.choice("sdcz")
     ienv = list(pl.IENV_DEFAULT); ienv[0] = rng.choice([2, 4, 8]); ienv[1] = rng.choice([1, 4, 6])
     slots = []
     pre = []
     for k, m in enumerate(macros):
-        pre += gen_macro(rng, m, k + 1, prec, ienv, slots)
+        pre += gen_macro(rng, m, k + 1, prec, ienv, slots, nrange=(9, 16) if probe == "first_x_tiny" else (2, 14))
     pops = gen_probe(rng, probe, prec, ienv, slots)
     # the solve probe is also exercised with foreign calls BETWEEN the factorization and the solve (same L, U arguments)
     infix = []
@@ -256,6 +265,16 @@ def run(ctx):
             c = gen_case(ctx.rng, combo, pb)
             cj = {"hist": pl.case_to_json(c["hist"]), "fresh": pl.case_to_json(c["fresh"]), "probe_idx": c["probe_idx"], "meta": c["meta"]}
             jobs.append((exe, drv, cj, wd, "p%d" % k)); k += 1
+    # size-dependent guards of the refinement (SAFE1/SAFE2 of ?gsrfs): a probe near the underflow guard after a history that refined
+    # a larger system in the same precision, every precision
+    for prec in "sdcz":
+        for m in ("first_sys_same", "first_user_same", "solve_same", "refact_same", "singular_same"):
+            for _ in range(2 if quick else 8):
+                c = gen_case(ctx.rng, (m,), "first_x_tiny", prec=prec)
+                for o in c["hist"]["ops"][:-1]:
+                    if o.get("api") == 1: o["api"] = 0          # the history goes through the expert driver (it refines)
+                cj = {"hist": pl.case_to_json(c["hist"]), "fresh": pl.case_to_json(c["fresh"]), "probe_idx": c["probe_idx"], "meta": c["meta"]}
+                jobs.append((exe, drv, cj, wd, "p%d" % k)); k += 1
     t0 = time.time()
     with Pool(min(vf.NCPU, 16)) as pool:
         results = pool.map(eval_pair, jobs, chunksize=4)
